@@ -12,12 +12,16 @@ ASSUMPTIONS = ["leaf rule classes are an oracle parameter of the block-level the
 TIE_MODULES = []
 
 
+def _render(p, case):
+    L = layout.render_free(p, case["seed"] ^ 0x5A5A, layout.FreeOpts(p_cont=0.0, p_extra_blank=0.0, comments=True))
+    return L.text().rstrip("\n") + "\n"
+
+
 def run_case(case):
     p = util.program_case(case)
     std, keep = case["std"], case["keep"]
     if keep:
-        L = layout.render_free(p, random.Random(case["seed"] ^ 0x5A5A), layout.FreeOpts(p_cont=0.0, p_extra_blank=0.0, comments=True))
-        src = L.text().rstrip("\n") + "\n"
+        src = _render(p, case)
     else:
         src = p.text()
     res = {"key": [case["seed"], std, keep], "counts": util.feature_counts(p), "findings": []}
@@ -28,19 +32,12 @@ def run_case(case):
     if o.kind != "tree":
         sigs = util.outcome_signature(o)
 
-        if keep:
-            # differential minimisation: still rejected with comments kept, still accepted
-            # with comments ignored (so the reduced text stays a valid program)
-            def still(t):
-                o_ = real.try_parse(t, std=std, ignore_comments=False, free=True)
-                return (o_.kind != "tree" and util.outcome_signature(o_) == sigs and
-                        real.try_parse(t, std=std, ignore_comments=True, free=True).kind == "tree")
-            mini = util.ddmin_lines(src, still) if still(src) else src
-        else:
-            def failsp(q):
-                o_ = real.try_parse(q.text(), std=std, ignore_comments=True, free=True)
-                return o_.kind != "tree" and util.outcome_signature(o_) == sigs
-            mini = util.reduce_prog(p, failsp).text()
+        def failsp(q):
+            t = _render(q, case) if keep else q.text()
+            o_ = real.try_parse(t, std=std, ignore_comments=not keep, free=True)
+            return o_.kind != "tree" and util.outcome_signature(o_) == sigs
+        q = util.reduce_prog(p, failsp)
+        mini = _render(q, case) if keep else q.text()
         known = findings.classify("C01", mini, {"ignore_comments": not keep, "std": std})
         res["findings"].append({"signature": known or ("reject:" + sigs),
                                 "what": "generated valid program rejected: %s | minimal: %r" % (str(o.exc)[:200], mini[:400]),
